@@ -101,6 +101,33 @@ class Obs:
                   f'stacks+bets+pots={tot} != starting {self.total} after'
                   f' {op!r} (op #{len(state.operations)}); stacks='
                   f'{state.stacks} bets={state.bets} pots={pots}'))
+        # the state's own aggregate views agree with the parts: every public
+        # way of asking "how much is on the table" gives the same chips
+        if not self.viol:
+            try:
+                tpa = state.total_pot_amount
+                pas = list(state.pot_amounts)
+            except Exception as e:  # noqa: BLE001
+                from ..engine import is_engine_exception
+                if not is_engine_exception(e):
+                    raise
+                tpa = pas = None
+                self.viol.append(V(ID, 'pot_view_raised', type(e).__name__,
+                                   f'{e!r} after {op!r}'))
+            if tpa is not None:
+                want = sum(state.bets) + psum
+                if abs(tpa - want) > tol:
+                    self.viol.append(V(
+                        ID, 'pot_views_disagree', 'total_pot_amount',
+                        f'total_pot_amount={tpa} but bets {state.bets} +'
+                        f' pots {pots} = {want} after {op!r}'
+                        f' (op #{len(state.operations)})'))
+                elif len(pas) != len(pots) or any(
+                        abs(a - (p.raked_amount + p.unraked_amount)) > tol
+                        for a, p in zip(pas, pots)):
+                    self.viol.append(V(
+                        ID, 'pot_views_disagree', 'pot_amounts',
+                        f'pot_amounts={pas} but pots={pots} after {op!r}'))
         name = type(op).__name__
         if name == 'BetCollection':
             pass
